@@ -1542,6 +1542,9 @@ func emitCore(o *hx.Out, p *Prog, cr *compRes, gores map[string]goRes) {
 	}
 	o.Line(p.CoreTokens, hx.Hex(cr.script))
 	o.Line("layout", "ok")
+	// the real compiler compiled the program: the model's own size checks (Lean: Compile.accepted, the hypothesis of
+	// C14.layoutOK_accepted) must accept it too
+	o.Line("accepted", "yes")
 	offs := map[string]int{}
 	npar := map[string]int{}
 	for _, m := range cr.methods {
